@@ -619,6 +619,44 @@ func definedOutside(v ssa.Value, l *ssaLoop) bool {
 		if a, ok := lenArg(x); ok {
 			return definedOutside(a, l)
 		}
+	case *ssa.Field:
+		// a field of a struct value that is itself loop-invariant
+		return definedOutside(x.X, l)
+	case *ssa.UnOp:
+		// a field of a local struct variable that is not written inside the loop (and whose address goes nowhere)
+		if x.Op == token.MUL {
+			if fa, ok := x.X.(*ssa.FieldAddr); ok {
+				if al, ok := fa.X.(*ssa.Alloc); ok && !al.Heap {
+					okAll := true
+					for _, r := range *al.Referrers() {
+						switch y := r.(type) {
+						case *ssa.Store:
+							if y.Addr != ssa.Value(al) || l.Blocks[y.Block()] {
+								okAll = false
+							}
+						case *ssa.FieldAddr:
+							for _, r2 := range *y.Referrers() {
+								switch z := r2.(type) {
+								case *ssa.UnOp:
+								case *ssa.Store:
+									if l.Blocks[z.Block()] || z.Addr != ssa.Value(y) {
+										okAll = false
+									}
+								default:
+									okAll = false
+								}
+							}
+						case *ssa.UnOp, *ssa.DebugRef:
+						default:
+							okAll = false
+						}
+					}
+					return okAll
+				}
+			}
+		}
+	case *ssa.Convert:
+		return definedOutside(x.X, l)
 	}
 	if ins, ok := v.(ssa.Instruction); ok {
 		return !l.Blocks[ins.Block()]
